@@ -4,6 +4,7 @@ import (
 	"bytes"
 	"fmt"
 	"strings"
+	"time"
 
 	"github.com/pascaldekloe/mqtt"
 )
@@ -222,6 +223,41 @@ func (w *World) monitorConnect() {
 				}
 				if failed {
 					down = append(down, span{i, -1})
+				}
+			}
+		}
+		// requests that were already waiting for the attempt learn about its
+		// failure at their next 20 ms poll: when the read routine lets at least
+		// two poll periods pass before it tries again, none of them is still
+		// waiting by then
+		for _, sp := range down {
+			if sp.to < 0 || w.log[sp.to].At-w.log[sp.from].At < 40*time.Millisecond || w.log[sp.from].D != "down" {
+				continue // (the write token says "down" after a failed attempt, "pending" after a lost connection)
+			}
+			for j := 0; j < sp.from; j++ {
+				c := w.log[j]
+				if c.K != "call" || c.Gen != w.log[sp.from].Gen || c.T == "reader" || strings.HasPrefix(c.S, "pub1") || strings.HasPrefix(c.S, "pub2") || c.S == "rs" || c.S == "close" || c.S == "disc" || c.S == "online" || c.S == "offline" {
+					continue
+				}
+				ret := len(w.log)
+				for k := j + 1; k < len(w.log); k++ {
+					if r := w.log[k]; r.K == "ret" && r.T == c.T && r.N == c.N && r.S == c.S && r.Gen == c.Gen {
+						ret = k
+						break
+					}
+				}
+				if ret <= sp.to {
+					continue
+				}
+				wrote := false
+				for k := j; k < sp.to; k++ {
+					if f := w.log[k]; f.K == "write" && f.T == "a:"+c.T {
+						wrote = true
+					}
+				}
+				if !wrote {
+					w.Violate("C11", "waited-through-failed-attempt", "%s %s kept waiting although the connect attempt it waited for had failed %v earlier (step %d): with a broker that stays away it would never return", c.T, c.S, w.log[sp.to].At-w.log[sp.from].At, w.log[sp.from].Step)
+					w.Violate("C18", "waited-through-failed-attempt", "%s %s was waiting for the connect attempt that failed at step %d; %v later, when the next attempt began, it still had not returned ErrDown", c.T, c.S, w.log[sp.from].Step, w.log[sp.to].At-w.log[sp.from].At)
 				}
 			}
 		}
@@ -494,7 +530,9 @@ func init() {
 	// to fail, so that three faults in a row stay affordable
 	register("connectretry", func() *Scenario {
 		s := mkConnect(true, false)()
-		s.Faults = Faults{DialErr: true, Cut: true, NoResponse: true, Connacks: [][]byte{{0x20, 2, 0, 3}, {0x20, 2, 1, 0}}}
+		s.Faults = Faults{DialErr: true, DialBlock: true, Cut: true, NoResponse: true, Connacks: [][]byte{{0x20, 2, 0, 3}, {0x20, 2, 1, 0}}}
+		// long enough between attempts for waiting requests to notice a failure
+		s.Config.ReconnectWaitMin, s.Config.ReconnectWaitMax = 60*time.Millisecond, 240*time.Millisecond
 		return s
 	})
 
